@@ -156,3 +156,30 @@ def replay_single(table, sid, payload, first, clause):
         else:
             out["violates"] = single_exc is not None or not _same(single, bulk)
     return out
+
+
+def replay_window(first, count, sid):
+    """C14: decode row `sid` from a full-length answer of the block (first, count) with an instrumented reader"""
+    from goodwe.protocol import ModbusRtuReadCommand, ProtocolResponse
+    nbytes = 2 * count
+    out = {"violates": False, "rows": []}
+    for tn, rows in cs.sensor_tables().items():
+        if tn.startswith("ES."):
+            continue
+        for s in rows:
+            if s.id_ != sid:
+                continue
+            cmd = ModbusRtuReadCommand(0xf7, first, count)
+            resp = ProtocolResponse.__new__(ProtocolResponse)
+            resp.command = cmd
+            resp.raw_data = b""
+            resp._bytes = _LoggingBytesIO(bytes((i * 7 + 1) % 251 for i in range(nbytes)))
+            try:
+                s.read(resp)
+            except ValueError:
+                pass
+            short = [(pos, size, got) for pos, size, got in resp._bytes.log if got < size or pos + size > nbytes]
+            if short and any(first <= s.offset < first + 200 for _ in (0,)):
+                out["violates"] = True
+                out["rows"].append({"table": tn, "class": type(s).__name__, "offset": s.offset, "short_reads": short})
+    return out
